@@ -25,23 +25,54 @@ import (
 	"github.com/tucats/ego/internal/verifh/vh"
 )
 
-func egoBinary(t *testing.T) string {
-	p := filepath.Join(os.Getenv("VERIF_BIN"), "ego")
-	if _, err := os.Stat(p); err != nil {
-		t.Fatalf("ego binary not found at %s (registry must list bins:[{name:ego}])", p)
+// egoBinary installs the driver's ego binary the way an installed ego looks: the
+// binary with its library next to it. On its first start ego stores the directory
+// it lives in as ego.runtime.path and takes <that directory>/lib as its library;
+// a bare binary has no library at all (math.Pi, strings.Camel ... are "unknown
+// package member"). The in-process runner uses $VERIF_EGO_SRC/lib, so the binary
+// is given the same one.
+func egoBinary(t *testing.T, arena, root string) (bin, home string) {
+	src := filepath.Join(os.Getenv("VERIF_BIN"), "ego")
+
+	raw, err := os.ReadFile(src)
+	if err != nil {
+		t.Fatalf("ego binary not found at %s (registry must list bins:[{name:ego}]): %v", src, err)
 	}
 
-	return p
+	dir := filepath.Join(arena, "egobin")
+	home = filepath.Join(arena, "egohome")
+
+	_ = os.RemoveAll(dir)
+	_ = os.RemoveAll(home)
+
+	if err := os.MkdirAll(dir, 0o755); err != nil {
+		t.Fatal(err)
+	}
+
+	if err := os.MkdirAll(home, 0o755); err != nil {
+		t.Fatal(err)
+	}
+
+	bin = filepath.Join(dir, "ego")
+	if err := os.WriteFile(bin, raw, 0o755); err != nil {
+		t.Fatal(err)
+	}
+
+	if err := os.Symlink(filepath.Join(root, "lib"), filepath.Join(dir, "lib")); err != nil {
+		t.Fatal(err)
+	}
+
+	return bin, home
 }
 
 // runEgo runs the binary with an isolated HOME; timedOut is a watchdog (inconclusive).
-func runEgo(bin, dir string, args ...string) (stdout, stderr string, exit int, timedOut bool) {
+func runEgo(bin, home, dir string, args ...string) (stdout, stderr string, exit int, timedOut bool) {
 	ctx, cancel := context.WithTimeout(context.Background(), 120*time.Second)
 	defer cancel()
 
 	cmd := exec.CommandContext(ctx, bin, args...)
 	cmd.Dir = dir
-	cmd.Env = append(os.Environ(), "HOME="+os.Getenv("VERIF_HOME"), "EGO_PATH=")
+	cmd.Env = append(os.Environ(), "HOME="+home, "EGO_PATH=")
 	cmd.WaitDelay = 2 * time.Second
 
 	var so, se bytes.Buffer
@@ -56,11 +87,16 @@ func runEgo(bin, dir string, args ...string) (stdout, stderr string, exit int, t
 	if ee, ok := err.(*exec.ExitError); ok {
 		exit = ee.ExitCode()
 	} else if err != nil {
-		exit = -2
+		// the process could not be started or waited for (fork failure under load ...):
+		// that is not a result of ego
+		return so.String(), "could not run the binary: " + err.Error(), exitNotRun, false
 	}
 
 	return so.String(), se.String(), exit, false
 }
+
+// exitNotRun marks an invocation that produced no result of ego at all.
+const exitNotRun = -2
 
 var completedRe = regexp.MustCompile(`Completed a total of (\d+) tests(?:, (\d+) failed)?`)
 
@@ -68,15 +104,15 @@ func TestC05CLI(t *testing.T) {
 	r := vh.New("C05", "cli")
 	r.Rule = "a PRNG-chosen ~2 % of the corpus files plus generated decorated programs are formatted by the ego binary and by the harness (auto and --fragment), " +
 		"generated programs are run by both, corpus test files are tested by both; distinct = distinct (command, source); non-trivial = the binary produced a result"
-	r.Assume("the ego binary is built from the same scratch tree as the harness")
+	r.Assume("the ego binary is built from the same scratch tree as the harness and is installed next to that tree's lib/ (an installed ego keeps its library beside the binary); a bare binary without a library is not what the corpus part models")
 
 	if vh.ReplayCase() != nil {
 		t.Skip("replay belongs to another part")
 	}
 
 	root := os.Getenv("VERIF_EGO_SRC")
-	bin := egoBinary(t)
 	arena := arenaDir(t)
+	bin, egoHome := egoBinary(t, arena, root)
 
 	if os.Getenv("VERIF_EGO_LIB") == "" {
 		os.Setenv("VERIF_EGO_LIB", filepath.Join(root, "lib"))
@@ -131,7 +167,7 @@ func TestC05CLI(t *testing.T) {
 		warmTest := write("warm_test.ego", "@test \"warm: up\"\n{\n\t@assert 1 == 1\n}\n")
 
 		for _, args := range [][]string{{"fmt", warm}, {"run", warm}, {"test", warmTest}} {
-			_, errText, exit, to := runEgo(bin, filepath.Dir(args[1]), args...)
+			_, errText, exit, to := runEgo(bin, egoHome, filepath.Dir(args[1]), args...)
 
 			switch {
 			case to:
@@ -152,15 +188,29 @@ func TestC05CLI(t *testing.T) {
 			go func(j *job) {
 				defer func() { <-sem; wg.Done() }()
 
-				j.out, j.errT, j.exit, j.to = runEgo(bin, j.dir, j.args...)
+				j.out, j.errT, j.exit, j.to = runEgo(bin, egoHome, j.dir, j.args...)
 			}(j)
 		}
 
 		wg.Wait()
 
 		for _, j := range jobs {
+			// an invocation that could not be started is retried alone, then given up
+			for try := 0; try < 2 && j.exit == exitNotRun && !j.to; try++ {
+				r.Count("cli.start_retries", 1)
+
+				j.out, j.errT, j.exit, j.to = runEgo(bin, egoHome, j.dir, j.args...)
+			}
+
 			if j.to {
 				r.Count("inconclusive.cli_watchdog", 1)
+
+				continue
+			}
+
+			if j.exit == exitNotRun {
+				r.Count("inconclusive.cli_could_not_start", 1)
+				r.Inconcl("the ego binary could not be started for one cross-check (" + trunc(j.errT, 200) + "); that comparison was not made")
 
 				continue
 			}
